@@ -250,7 +250,7 @@ mutual
             | none => none
             | some flag => if flag ≠ 0 then (swapTy fuel g.m.ty b1 addr).map fun (b2, _) => (b2, addr) else some (b1, addr)
         | .fixed c => swapN fuel (g.kind == 1) g.m.ty c buf addr
-        | .dyn s | .limited s _ =>
+        | .dyn s _ | .limited s _ =>
           match sizers.lookup s with
           | some (saddr, ssz) =>
             match leRead buf saddr ssz with
@@ -266,7 +266,7 @@ mutual
           | _, _ => sizers
         if isLast then
           let unlimited := g.kind == 2 || (match g.m.kind with | .greedy => true | _ => false)
-          let dynamic := g.kind == 1 || (match g.m.kind with | .dyn _ => true | _ => false)
+          let dynamic := g.kind == 1 || (match g.m.kind with | .dyn _ _ => true | _ => false)
           some (buf1, e, sizers1, dynamic, unlimited, addr)
         else swapMembers fuel r fields buf1 ppos sizers1
   /-- swap_n_fixed (`++first`) / swap_n_dynamic (`first = swap(first)`) -/
